@@ -192,7 +192,12 @@ def well_pattern(draw, m, names):
 
 @st.composite
 def kw_wconprod(draw, m):
-    w = draw(st.sampled_from(_wells(m, "P")))
+    # now and then an injector is turned into a producer (the well keeps its name)
+    conv = _wells(m, "I") if draw(st.integers(0, 7)) == 0 and not getattr(m, "no_convert", False) else []
+    w = draw(st.sampled_from(conv or _wells(m, "P")))
+    if m.wells[w]["kind"] != "P":
+        m.wells[w]["kind"] = "P"
+        m.wells[w]["converted"] = True
     status = draw(st.sampled_from(["OPEN", "OPEN", "SHUT", "STOP"]))
     mode = draw(st.sampled_from(["ORAT", "WRAT", "GRAT", "LRAT", "RESV", "BHP"]))
     vals = [draw(st.one_of(st.just("1*"), rate.map(fnum))) for _ in range(5)]
@@ -208,7 +213,14 @@ def kw_wconprod(draw, m):
 
 @st.composite
 def kw_wconinje(draw, m):
-    w = draw(st.sampled_from(_wells(m, "I")))
+    # ... and a producer into an injector
+    conv = _wells(m, "P") if draw(st.integers(0, 7)) == 0 and not getattr(m, "no_convert", False) else []
+    w = draw(st.sampled_from(conv or _wells(m, "I")))
+    if m.wells[w]["kind"] != "I":
+        m.wells[w]["kind"] = "I"
+        m.wells[w]["converted"] = True
+        if m.wells[w]["injtype"] not in ("WATER", "GAS"):
+            m.wells[w]["injtype"] = "WATER"
     typ = m.wells[w]["injtype"]
     status = draw(st.sampled_from(["OPEN", "OPEN", "SHUT", "STOP"]))
     mode = draw(st.sampled_from(["RATE", "RESV", "BHP"]))
@@ -410,6 +422,7 @@ def kw_actionx(draw, m, body_kinds=None):
         ["DAY > 3"], ["WWCT 'P*' > 0.5 AND", "MNTH >= FEB"]]))
     body = []
     mm = m.clone()
+    mm.no_convert = True        # (well type conversions only by keywords of the deck proper)
     qkind = "none"
     for _ in range(draw(st.integers(1, 3))):
         kind = draw(st.sampled_from(body_kinds or getattr(m, "action_body", None) or ACTION_BODY))
